@@ -222,7 +222,7 @@ func (s *st) present(tag string, k int, id, secret string) {
 	post := s.w.Verdicts(s.l)
 	name, status := world.ErrName(err), world.ErrCode(err)
 	zz.Observe(tag+".err", name)
-	authenticated := (id == "c1" && secret == world.Secret1) || (id == "c2" && secret == world.Secret2)
+	authenticated := (id == "c1" && secret == world.Secret1) || (id == "c2" && secret == world.Secret2) || id == "c3"
 
 	touched := -1 // grant whose tokens this presentation may change
 	switch {
@@ -370,6 +370,9 @@ func run(hybrid, jwt bool, maxRefresh, freeOps int, extraGrant bool) {
 			cfg.RefreshTokenScopes = []string{"mail"} // not granted here: no refresh tokens at all
 		}
 	}}), l: &world.Ledger{}, unsure: map[int]bool{}}
+	// a registered PUBLIC client (identified without a secret) that owns no grant here
+	s.w.Store.Clients["c3"] = &fosite.DefaultClient{ID: "c3", Public: true, GrantTypes: []string{"authorization_code", "refresh_token"},
+		RedirectURIs: []string{"https://c1.example/cb", "https://c2.example/cb"}, ResponseTypes: []string{"code"}, Scopes: []string{"offline", "photos", "mail", "openid"}}
 	g0 := s.authorize("c1", hybrid)
 	g1 := s.authorize("c2", false)
 	if extraGrant {
